@@ -49,8 +49,8 @@ CHECKS.update({
    tech=TECH + 'RNG replaced by its contract (outcome enumeration); numeric runs on structured states as bounded stand-in'),
  'C12': dict(level='other', ref='DESIGN.md §7 C12',
    text='Proved (exact identities, symbolic complex Kraus operators / arbitrary operators and input, dim_in,dim_out in 1..3 (4), 1..3 (4) terms): apply_kraus == apply_choi o kraus_to_choi == apply_super o kraus_to_super == sum K rho K^dagger; Choi is the Gram matrix of the vectorised Kraus operators (=> CP); '
-        'choi<->super conversions mutually inverse and consistent with both applies on non-square dimension pairs; hf_channel_to_choi_op; the affine Bloch map reproduces the output Bloch vector; the three noise channels are trace preserving for a SYMBOLIC rate in [0,1]. '
-        'Bounded: conversions back to Kraus form (eigh), data-processing inequalities, fidelity/entropy ranges, torch branches.',
+        'choi<->super conversions mutually inverse and consistent with both applies on non-square dimension pairs; hf_channel_to_choi_op; the affine Bloch map reproduces the output Bloch vector; the three noise channels are trace preserving for a SYMBOLIC rate in [0,1]; choi_op_to_kraus_op / super_op_to_kraus_op with numpy.linalg.eigh replaced by its assumed contract (fixed rational eigenvalues, n0 below the threshold, and a fully symbolic eigenvector matrix): the Choi matrix of the returned Kraus operators is exactly the spectral part above the threshold, shapes (D-n0,dout,din). '
+        'Bounded: conversions back to Kraus form end-to-end through LAPACK, data-processing inequalities, fidelity/entropy ranges, torch branches.',
    note=ALG_NOTE + ' The inequalities between spectral functions (trace distance, fidelity, relative entropy) cannot be decided by contract-based deduction; they are evaluated at run time on seeded channels/states (bounded).',
    tech=TECH + 'run-time contract evaluation for the spectral clauses as bounded stand-in'),
  'C16': dict(level='proof', ref='DESIGN.md §7 C16',
@@ -114,7 +114,7 @@ CHECKS.update({
    note=EXPL_NOTE, tech=TECH + 'here only for the index-algebra core; deciding part: run-time contract evaluation on separable states (bounded stand-in)'),
  'C06': dict(level='exploration', ref='DESIGN.md §7 C06',
    text='Bounded: both-sides threshold probes (beta*(1-1e-6) inside, beta*(1+1e-6) outside) of get_density_matrix_boundary / get_ppt_boundary along random rays and states, batched == per-item, nesting beta_CHA <= beta_(k+1)-ext <= beta_k-ext <= beta_PPT <= beta_DM up to 1e-4, inner-model states at arbitrary parameters accepted by the outer tests. '
-        'Proved core: hf_interpolate_dm places the state at exactly the requested Gell-Mann distance (identity in symbolic rho, beta); get_ppt_boundary hands exactly the partial transpose to get_density_matrix_boundary.',
+        'Proved core: hf_interpolate_dm places the state at exactly the requested Gell-Mann distance (identity in symbolic rho, beta); get_ppt_boundary hands exactly the partial transpose to get_density_matrix_boundary; get_density_matrix_boundary, with numpy.linalg.eigvalsh replaced by its assumed contract (ascending symbolic eigenvalues of the matrix it is given), calls it once on the state itself and returns exactly the lengths at which the extreme eigenvalue of the ray I/N + beta (rho - I/N)/norm vanishes, all others being non-negative there (QF_NRA), N=2..4 (6).',
    note=EXPL_NOTE + ' cvxpy SolverError in this sandbox (the CHA LP; its own test is in the always-failing baseline set) is counted as skipped, never as a violation.', tech=TECH + 'here only for the interpolation / delegation core; deciding part: run-time contract evaluation along seeded rays (bounded stand-in)'),
  'C13': dict(level='exploration', ref='DESIGN.md §7 C13',
    text='Bounded: on seeded two-qubit states of every rank (Haar, Bures, Werner, isotropic, near-separable, boundary) concurrence / EOF / GME / negativity are finite, in range, related by the closed forms, local-unitary invariant and agree with the pure-state formulas; every variational convex-roof model at random parameters (scales 0.1, 1, 10; ensemble sizes rank..8) is >= the closed form - 1e-7. '
